@@ -286,3 +286,72 @@ T('d2_t_detail_set_conditionally', ['C09'],
 T('d2_t_body_local_after_fields', ['C09'],
   (E, _INIT_SUPER, _INIT_SUPER.replace("response=self.to_text(),", "response=body,").replace(
       "        super(HTTPException", "        body = self.to_text()\n        super(HTTPException")))
+
+# ------------------------------------------------------------------ third pass: generated templates, pair lookups, delegated negotiation
+# a template folded from literals and module constants is a constant template; the lookup of the (format, mimetype) pair
+# may be one parallel assignment; a renderer may hand its error to one function (of another module) that negotiates,
+# adapts and returns it
+_XML_FIELDS_CONST = "\n_XML_FIELDS = ('code', 'message', 'detail', 'error_type')\n"
+_XML_GENERATED = ("        params = self.to_escaped_dict()\n"
+                  "        elements = ['<{0}>{{{0}}}</{0}>'.format(name) for name in _XML_FIELDS]\n"
+                  "        template = '<http_error>' + ''.join(elements) + '</http_error>'\n"
+                  "        return template.format(**params)\n")
+_SHARED_ADAPT = ("\n\ndef _adapt_to_accept(request, error, supported_mimetypes):\n"
+                 "    accepted = request.accept_mimetypes\n"
+                 "    best_match = accepted.best_match(supported_mimetypes)\n"
+                 "    error.adapt(best_match)\n"
+                 "    return error\n")
+_IMPORT_OLD = "                     ContextualErrorHandler)"
+_IMPORT_NEW = "                     ContextualErrorHandler,\n                     _adapt_to_accept)"
+_RENDER_DELEGATES = "        return _adapt_to_accept(request, _error, MIME_SUPPORT_MAP)\n\n    def uncaught_to_response"
+_DEFAULT_RENDER_FULL = _DEFAULT_RENDER + "    return _error\n"
+T('d3_t_xml_template_generated', ['C09', 'C08'], (E, _AFTER_DEFAULT_MIME, _AFTER_DEFAULT_MIME + _XML_FIELDS_CONST), (E, _XML_BODY, _XML_GENERATED))
+T('d3_t_xml_template_generated_local_table', ['C09', 'C08'],
+  (E, _XML_BODY, "        params = self.to_escaped_dict()\n"
+                 "        fields = ('code', 'message', 'detail', 'error_type')\n"
+                 "        inner = ''.join('<%s>{%s}</%s>' % (name, name, name) for name in fields)\n"
+                 "        return ('<http_error>%s</http_error>' % inner).format(**params)\n"))
+T('d3_t_adapt_pair_lookup', ['C09'],
+  (E, _ADAPT_LOOKUP, "        try:\n            fmt_name, mimetype = MIME_SUPPORT_MAP[mimetype], mimetype\n        except KeyError:\n"
+                     "            fmt_name, mimetype = 'text', 'text/plain'\n"))
+T('d3_t_adapt_pair_helper', ['C09'], (E, _AFTER_DEFAULT_MIME, _AFTER_DEFAULT_MIME +
+                                      "\n\ndef _format_pair(mimetype):\n    try:\n        return MIME_SUPPORT_MAP[mimetype], mimetype\n"
+                                      "    except KeyError:\n        return 'text', 'text/plain'\n"),
+  (E, _ADAPT_LOOKUP, "        fmt_name, mimetype = _format_pair(mimetype)\n"))
+T('d3_t_render_delegates_cross_module', ['C09', 'C08'], (E, _AFTER_DEFAULT_MIME, _AFTER_DEFAULT_MIME + _SHARED_ADAPT),
+  (E, _RENDER_ERROR, _RENDER_DELEGATES), (A, _IMPORT_OLD, _IMPORT_NEW),
+  (A, _DEFAULT_RENDER_FULL, "    return _adapt_to_accept(request, _error, MIME_SUPPORT_MAP)\n"))
+T('d3_t_render_delegates_named_result', ['C09'], (E, _AFTER_DEFAULT_MIME, _AFTER_DEFAULT_MIME + _SHARED_ADAPT), (A, _IMPORT_OLD, _IMPORT_NEW),
+  (A, _DEFAULT_RENDER_FULL, "    table = MIME_SUPPORT_MAP\n    adapted = _adapt_to_accept(request=request, error=_error, supported_mimetypes=table)\n"
+                            "    return adapted\n"))
+T('d3_t_render_delegates_returns_own', ['C09'], (E, _AFTER_DEFAULT_MIME, _AFTER_DEFAULT_MIME + _SHARED_ADAPT), (A, _IMPORT_OLD, _IMPORT_NEW),
+  (A, _DEFAULT_RENDER_FULL, "    _adapt_to_accept(request, _error, MIME_SUPPORT_MAP)\n    return _error\n"))
+B('d3_b_xml_generated_template_with_data', ['C09', 'C08'], {'C09': 'R09.c', 'C08': 'R08.e'},
+  (E, _AFTER_DEFAULT_MIME, _AFTER_DEFAULT_MIME + _XML_FIELDS_CONST),
+  (E, _XML_BODY, _XML_GENERATED.replace("'<{0}>{{{0}}}</{0}>'.format(name)", "'<{0}>{1}</{0}>'.format(name, params[name])")))
+B('d3_b_xml_generated_raw_fields', ['C09'], 'R09.c', (E, _AFTER_DEFAULT_MIME, _AFTER_DEFAULT_MIME + _XML_FIELDS_CONST),
+  (E, _XML_BODY, "        elements = ['<{0}>{1}</{0}>'.format(name, getattr(self, name)) for name in _XML_FIELDS]\n"
+                 "        return '<http_error>' + ''.join(elements) + '</http_error>'\n"))
+B('d3_b_xml_template_from_field_names_of_instance', ['C09', 'C08'], {'C09': 'R09.c', 'C08': 'R08.e'},
+  (E, _XML_BODY, _XML_GENERATED.replace("for name in _XML_FIELDS", "for name in self.to_dict()")))
+B('d3_b_xml_generated_table_is_parameter', ['C09', 'C08'], {'C09': 'R09.c', 'C08': 'R08.e'},
+  (E, _AFTER_DEFAULT_MIME, _AFTER_DEFAULT_MIME + _XML_FIELDS_CONST),
+  (E, "    def to_xml(self):\n", "    def to_xml(self, _XML_FIELDS=None):\n        _XML_FIELDS = _XML_FIELDS or [self.message]\n"),
+  (E, _XML_BODY, _XML_GENERATED))
+B('d3_b_adapt_pair_lookup_other_mimetype', ['C09'], 'R09.b',
+  (E, _ADAPT_LOOKUP, "        try:\n            fmt_name, mimetype = MIME_SUPPORT_MAP[mimetype], DEFAULT_MIME\n        except KeyError:\n"
+                     "            fmt_name, mimetype = 'text', 'text/plain'\n"))
+B('d3_b_delegate_other_table', ['C09'], 'R09.b', (E, _AFTER_DEFAULT_MIME, _AFTER_DEFAULT_MIME + _SHARED_ADAPT), (A, _IMPORT_OLD, _IMPORT_NEW),
+  (A, _DEFAULT_RENDER_FULL, "    return _adapt_to_accept(request, _error, ['text/html', 'text/plain'])\n"))
+B('d3_b_delegate_ignores_table', ['C09'], 'R09.b',
+  (E, _AFTER_DEFAULT_MIME, _AFTER_DEFAULT_MIME + _SHARED_ADAPT.replace("best_match(supported_mimetypes)", "best_match(ERROR_CODE_MAP)")),
+  (A, _IMPORT_OLD, _IMPORT_NEW), (A, _DEFAULT_RENDER_FULL, "    return _adapt_to_accept(request, _error, MIME_SUPPORT_MAP)\n"))
+B('d3_b_delegate_skips_adapt', ['C09'], 'R09.b',
+  (E, _AFTER_DEFAULT_MIME, _AFTER_DEFAULT_MIME + _SHARED_ADAPT.replace("    error.adapt(best_match)\n", "    if best_match:\n        error.adapt(best_match)\n")),
+  (E, _RENDER_ERROR, _RENDER_DELEGATES), (A, _IMPORT_OLD, _IMPORT_NEW),
+  (A, _DEFAULT_RENDER_FULL, "    return _adapt_to_accept(request, _error, MIME_SUPPORT_MAP)\n"))
+B('d3_b_delegate_returns_nothing', ['C09'], 'R09.b',
+  (E, _AFTER_DEFAULT_MIME, _AFTER_DEFAULT_MIME + _SHARED_ADAPT.replace("    return error\n", "")), (A, _IMPORT_OLD, _IMPORT_NEW),
+  (A, _DEFAULT_RENDER_FULL, "    return _adapt_to_accept(request, _error, MIME_SUPPORT_MAP)\n"))
+B('d3_b_delegate_call_conditional', ['C09'], 'R09.b', (E, _AFTER_DEFAULT_MIME, _AFTER_DEFAULT_MIME + _SHARED_ADAPT), (A, _IMPORT_OLD, _IMPORT_NEW),
+  (A, _DEFAULT_RENDER_FULL, "    if kwargs:\n        _adapt_to_accept(request, _error, MIME_SUPPORT_MAP)\n    return _error\n"))
